@@ -17,6 +17,7 @@
 (*   "filter0/1/2"  every registered filter x kind of left value x kinds of  *)
 (*                  0, 1 or 2 arguments over the value lattice               *)
 (*   "tagarg"       tag / expression carriers x kinds of one or two operands *)
+(*   "deep"         deeply nested / very long expressions and blocks          *)
 (*   "source"       every source string of <= MaxLen characters over a small *)
 (*                  alphabet of markup characters                            *)
 EXTENDS Naturals, Sequences, FiniteSets, TLC, Json
@@ -37,13 +38,13 @@ Filters == {"abs", "append", "at_least", "at_most", "base64_decode", "base64_enc
 (* kinds of value (concretised by the harness): the lattice of the property's quantifier *)
 Vals == {"nil", "true", "false", "zero", "neg", "huge", "float", "inf", "nan", "empty", "abc", "digits", "exp", "nanstr", "percent",
          "badb64", "b64bin", "nonascii", "manydigits", "list", "nested", "dict", "dicts", "strs", "mixed", "range", "undefined", "date",
-         "fmt", "neghuge", "tuple", "deep"}
+         "fmt", "neghuge", "tuple", "deep", "ts", "tsstr"}
 ArgVals == {"nil", "zero", "neg", "huge", "float", "nan", "empty", "abc", "digits", "percent", "list", "dict", "undefined", "true"}
 
 Carriers == {"for", "forlimit", "foroffset", "forboth", "tablerow", "tablerowcols", "tablerowlimit", "range", "rangeboth", "cycle", "cyclegroup",
              "case", "when", "lt", "le", "eq", "contains", "containsr", "and", "index", "indexr", "dot", "size", "first", "include", "includefor",
              "render", "renderfor", "with", "increment", "assign", "capture", "echo", "ternary", "unless", "ifchanged", "translate",
-             "translatecount", "macrodefault", "callarg", "liquid", "extends", "block", "ifblank", "ifempty"}
+             "translatecount", "macrodefault", "callarg", "liquid", "extends", "block", "ifblank", "ifempty", "translatecontext"}
 
 (* how many positional arguments a filter can take (one filter without parameters is kept in every family: argument-count errors) *)
 Arity0 == {"abs", "base64_decode", "base64_encode", "base64_url_safe_decode", "base64_url_safe_encode", "capitalize", "ceil", "downcase",
@@ -55,13 +56,16 @@ FiltersWith(n) == IF n = 0 THEN Filters ELSE IF n = 1 THEN (Filters \ Arity0) \c
 FilterCells(n) == { [part |-> "filter", f |-> f, left |-> l, args |-> a] : f \in FiltersWith(n), l \in Vals, a \in [1..n -> ArgVals] }
 TagCells == { [part |-> "tagarg", c |-> c, x |-> x, y |-> y] : c \in Carriers, x \in Vals, y \in ArgVals }
 Alphabet == {"{", "%", "}", "-", "#", " ", "a", "|"}
+(* deeply nested / very long expressions and blocks: the parser and the evaluator recurse on them *)
+DeepKinds == {"index", "and", "or", "not", "paren", "filterchain", "dots", "ternary", "ifnest", "fornest", "rangenest", "concat", "whenlist", "args"}
+DeepCells == { [part |-> "deep", kind |-> k, depth |-> d] : k \in DeepKinds, d \in {50, 400, 3000} }
 SourceCells == UNION { { [part |-> "source", s |-> s] : s \in [1..n -> Alphabet] } : n \in 0..MaxLen }
 
 VARIABLES cell, mode, status, n
 vars == <<cell, mode, status, n>>
 
 Family == CASE Part = "filter0" -> FilterCells(0) [] Part = "filter1" -> FilterCells(1) [] Part = "filter2" -> FilterCells(2)
-            [] Part = "tagarg" -> TagCells [] OTHER -> SourceCells
+            [] Part = "tagarg" -> TagCells [] Part = "deep" -> DeepCells [] OTHER -> SourceCells
 
 Init == cell \in Family /\ mode \in Modes /\ status = "running" /\ n = 0
 Parse == /\ status = "running" /\ \/ status' = "parsed" \/ status' = "LiquidError"
